@@ -70,6 +70,13 @@ def run(ck, only=None):
         pth = os.path.join(wd, tag + ".h")
         open(pth, "w").write(big_header(n))
         mids.append((tag, pth))
+    # three inputs whose bindings END in a long run of 3-byte characters, the tails one byte apart: whatever byte offset from the
+    # end a piece of code picks, at least two of the three land inside a character
+    utails = []
+    for k in range(3):
+        pth = os.path.join(wd, f"utail{k}.h")
+        open(pth, "w").write(SMALL + "/** " + "\u65e5\u672c\u8a9e\u306e\u30b3\u30e1\u30f3\u30c8" * 40 + " */\nint last_" + "z" * (k + 1) + "(void);\n")
+        utails.append((f"utail{k}", pth))
     cfg = os.path.join(wd, "rustfmt.toml")
     open(cfg, "w").write("max_width = 70\n")
     # spawn faults
@@ -122,6 +129,8 @@ def run(ck, only=None):
             sizes.append(("big", big))
             if ck.tier == "thorough" or term in ("e1", "kill"):
                 sizes += mids
+        if term in ("e1", "e101", "e255", "kill", "segv") and sout in ("full", "half", "reformat", "fullbad"):
+            sizes += utails   # a failing formatter that has already written text whose last bytes are multi-byte characters
         for size, hdr in sizes:
             confs = [False, True] if (ck.tier == "thorough" or (size == "small" and term in ("e1", "kill"))) else [False]
             for conf in confs:
